@@ -1377,6 +1377,14 @@ pub fn check_state(w: &World, book: &Book, cfg: Option<&Cfg>, h: &mut Hist, st: 
         if (e.main != 0 || e.approver != 0) && denoms_disjoint(cfg) {
             viol(out, "C01", "per-order", "order left the book with a non-zero escrow account (over-paid or stranded)", format!("after {}: {} {} main {} approver {}", kind, if k.0 == 'a' { "ask" } else { "bid" }, k.1, e.main, e.approver));
         }
+        // C08: the approver gets back exactly the unconsumed part - once the ask is gone, everything the
+        // approver escrowed for it has either gone to buyers or back to the approver
+        if k.0 == 'a' {
+            if e.approver != 0 && denoms_disjoint(cfg) {
+                viol(out, "C08", "approver-escrow", "ask left the book while part of its approver's escrow was neither delivered to buyers nor returned", format!("after {}: ask {} approver escrow account {}", kind, k.1, e.approver));
+            }
+            st.count("C08", "closed_asks_whose_approver_escrow_account_was_checked");
+        }
         st.count("C01", "orders_closed_with_zero_escrow_checked");
     }
     // conservation per denomination
